@@ -138,14 +138,19 @@ def get_type_graph(t: type) -> graphlib.TopologicalSorter[TypeNode]:
             #   i.e., we may get `str` or `datetime` any number of times,
             #   that's not cyclic, so we can just add it to the graph.
             is_subscripted = inspection.issubscriptedgeneric(unwrapped)
-            seen = path if is_subscripted else visited
+            is_generic = is_subscripted or inspection.isuniontype(unwrapped)
+            seen = path if is_generic else visited
             is_visited = child in seen or unwrapped in seen
             is_stdlib = inspection.isstdlibtype(unwrapped)
             can_be_cyclic = is_subscripted or is_stdlib is False
             # We detected a cyclic type,
             #   wrap in a ForwardRef and don't add it to the stack
             #   This will terminate this edge to prevent infinite cycles.
-            if is_visited and can_be_cyclic:
+            if is_visited and can_be_cyclic and is_generic:
+                # A reference can't carry the parameters of a generic,
+                #   so we defer the annotation itself.
+                node = TypeNode(child, unwrapped, var=var, cyclic=True)
+            elif is_visited and can_be_cyclic:
                 qualname = inspection.qualname(child)
                 *rest, refname = qualname.split(".", maxsplit=1)
                 is_argument = var is not None
@@ -185,8 +190,8 @@ class TypeNode:
     """The unwrapped type annotation for this node."""
     var: str | None = None
     """The variable or parameter name associated to the type annotation for this node."""
-    cyclic: bool = dataclasses.field(default=False, hash=False, compare=False)
-    """Whether this type annotation is cyclic."""
+    cyclic: bool = False
+    """Whether this type annotation is cyclic (i.e., its resolution must be deferred)."""
 
     def __post_init__(self):
         if self.unwrapped is None:
